@@ -81,12 +81,22 @@ def rule_r1(rep, program: Program, et: ExcTypes):
         for s, lab in n.succ:
             al, fl, fg = dict(alias), dict(flips), dict(flags)
             if n.kind == "stmt" and lab != "exc":
+                pairs = []
                 if isinstance(a, ast.Assign) and len(a.targets) == 1 and isinstance(a.targets[0], ast.Name):
-                    t = a.targets[0].id
-                    v = a.value
-                    if isinstance(v, ast.Name) and v.id in al:
-                        al[t] = al[v.id]
-                    elif isinstance(v, ast.Call) and call_name(v).endswith("integrator.step"):
+                    pairs = [(a.targets[0].id, a.value)]
+                elif isinstance(a, ast.Assign) and len(a.targets) == 1 and isinstance(a.targets[0], ast.Tuple) and isinstance(a.value, ast.Tuple) and len(a.targets[0].elts) == len(a.value.elts) and all(isinstance(x, ast.Name) for x in a.targets[0].elts):
+                    pairs = [(x.id, v2) for x, v2 in zip(a.targets[0].elts, a.value.elts)]
+                old_al = dict(al)
+                for t, v in pairs:
+                    if isinstance(v, ast.Name) and v.id in old_al:
+                        al[t] = old_al[v.id]
+                        c = const_of(v, fg)
+                        if c is not TOP:
+                            fg[t] = c
+                        else:
+                            fg.pop(t, None)
+                        continue
+                    if isinstance(v, ast.Call) and call_name(v).endswith("integrator.step"):
                         al[t] = "P"
                         fl["P"] = 0
                     elif t in al:
@@ -622,7 +632,7 @@ def rule_r9(rep, program: Program):
     mk, sk = program.cls("MultinomialDynamicIntegrationTransition"), program.cls("SliceDynamicIntegrationTransition")
 
     def ret(f):
-        return [n for n in ast.walk(f.node) if isinstance(n, ast.Return)][-1].value
+        return expand_locals([n for n in ast.walk(f.node) if isinstance(n, ast.Return)][-1].value, single_assignment_locals(f.node))
 
     # multinomial weight
     f = mk.methods["_weight_function"]
@@ -718,7 +728,7 @@ def rule_r11(rep, program: Program):
     k = program.cls("DynamicIntegrationTransition")
     f = k.methods["_new_leave"]
     rets = [n for n in ast.walk(f.node) if isinstance(n, ast.Return)]
-    call = rets[-1].value
+    call = expand_locals(rets[-1].value, single_assignment_locals(f.node))
     kw = {x.arg: norm(x.value) for x in call.keywords} if isinstance(call, ast.Call) else {}
     sp, hp, ap = f.params[1], f.params[2], f.params[3]
     want = {"negative": sp, "positive": sp, "weight": f"self._weight_function({hp}, {ap})", "depth": "0"}
